@@ -90,6 +90,26 @@ def set_prop(srv, prefix, cpath, prop, value):
     return pv[0] if pv else "noprop"
 
 
+def set_props(srv, prefix, cpath, pairs, separate):
+    """one PROPPATCH setting several properties, in the given order -> {prop: status}"""
+    if separate:
+        inner = "".join("<D:set><D:prop>%s</D:prop></D:set>" % el_xml(p, v) for p, v in pairs)
+    else:
+        inner = "<D:set><D:prop>%s</D:prop></D:set>" % "".join(el_xml(p, v) for p, v in pairs)
+    body = ('<?xml version="1.0" encoding="utf-8"?><D:propertyupdate xmlns:D="DAV:">%s</D:propertyupdate>' % inner).encode("utf-8")
+    r = srv.request("PROPPATCH", prefix.rstrip("/") + cpath + "/", {"Content-Type": "text/xml"}, body)
+    if r.status != 207:
+        return {p: "status%d" % r.status for p, _ in pairs}
+    ms = parse_multistatus(r.body)
+    if not ms or not ms[0]:
+        return {p: "unparsed" for p, _ in pairs}
+    out = {}
+    for p, _ in pairs:
+        pv = ms[0][0]["props"].get(PROPS[p][0])
+        out[p] = pv[0] if pv else "noprop"
+    return out
+
+
 def members_snapshot(srv, prefix, cpaths):
     snap = {}
     for cp in cpaths:
@@ -124,8 +144,40 @@ def http_part(chk, n_hist, length, unsafe=False):
                 if r < 0.12:
                     srv.restart()
                     history.append("restart")
+                elif r < 0.40:
+                    # several properties in one request (what calendar clients send), order varied
+                    cands = [p for p, (_, ks) in PROPS.items() if kinds[cpath] in ks]
+                    chk.rng.shuffle(cands)
+                    pairs, seen_keys = [], set()
+                    for p in cands[:chk.rng.randint(2, 4)]:
+                        if KEY[p] in seen_keys:
+                            continue
+                        seen_keys.add(KEY[p])
+                        v = chk.rng.choice(COLORS) if "color" in p else chk.rng.choice(ORDERS) if "order" in p else \
+                            chk.rng.choice([t for t in TEXTS if "\n" not in t])
+                        pairs.append((p, v))
+                    if chk.rng.random() < 0.5:
+                        pairs.sort(key=lambda pv: "order" in pv[0])      # calendar-order last
+                    sts = set_props(srv, prefix, cpath, pairs, separate=chk.rng.random() < 0.4)
+                    history.append(["PROPPATCH*", cpath, [[p, v, sts[p]] for p, v in pairs]])
+                    chk.count("proppatch-multi")
+                    for p, v in pairs:
+                        if sts[p] == "200":
+                            expect[(cpath, KEY[p])] = v
                 else:
                     prop = chk.rng.choice([p for p, (_, ks) in PROPS.items() if kinds[cpath] in ks])
+                    others = [v for (cp2, k2), v in expect.items() if cp2 == cpath and k2 != KEY[prop]
+                              and k2 not in ("color", "order")]
+                    if "color" not in prop and "order" not in prop and others and chk.rng.random() < 0.3:
+                        # the value another property of this collection holds right now
+                        val = chk.rng.choice(others)
+                        st = set_prop(srv, prefix, cpath, prop, val)
+                        history.append(["PROPPATCH", cpath, prop, val, st])
+                        chk.count("proppatch-same-value-as-another-property")
+                        if st == "200":
+                            expect[(cpath, KEY[prop])] = val
+                        prop = None
+                if r >= 0.40 and prop is not None:
                     if "color" in prop:
                         val = chk.rng.choice(COLORS)
                     elif "order" in prop:
@@ -166,6 +218,31 @@ def http_part(chk, n_hist, length, unsafe=False):
             if h < 2:
                 chk.sample({"frontend": fe, "prefix": prefix, "history": history[:8]})
             chk.traces_validated += 1
+        finally:
+            srv.close()
+            shutil.rmtree(scratch, ignore_errors=True)
+
+
+def same_value_probe(chk):
+    """two properties of one collection given the same text: both must read it back"""
+    for fe in ("wsgi", "aiohttp"):
+        scratch = scratch_dir()
+        srv = make_server(fe, scratch + "/data", prefix="/")
+        try:
+            for cp, seq in ((BOOK, ["addressbook-description", "comment", "displayname"]),
+                            (CAL, ["displayname", "comment"]), (BOOK, ["comment", "addressbook-description"])):
+                hist = []
+                for i, prop in enumerate(seq):
+                    val = "same text for all %s" % cp[-4:]
+                    st = set_prop(srv, "/", cp, prop, val)
+                    hist.append(["PROPPATCH", cp, prop, val, st])
+                    got = read_props(srv, "/", cp, seq[:i + 1])
+                    chk.case(("same-value", fe, cp, tuple(seq[:i + 1])))
+                    for q in seq[:i + 1]:
+                        if st == "200" and got and got[q] != ("200", val):
+                            chk.violation("C15:property-read-differs-from-acknowledged-set:" + q + "@" + fe,
+                                          f"{q} of {cp} set to {val!r} (200) reads back {got[q]!r} after {prop} was given the same text",
+                                          {"level": "http", "frontend": fe, "prefix": "/", "history": hist})
         finally:
             srv.close()
             shutil.rmtree(scratch, ignore_errors=True)
@@ -272,6 +349,7 @@ def run(chk):
     run_templates(chk, tmpls, toks, PREFIXES, kinds=["bare-mem", "bare-disk", "tree"], label="store-meta")
     http_part(chk, 4 if quick else 40, 14 if quick else 30)
     multiline_probe(chk)
+    same_value_probe(chk)
     gitconfig_part(chk, 3 if quick else 40, 15 if quick else 40)
 
 
